@@ -26,6 +26,8 @@ WSection == /\ IsEv("WSection")
                /\ Len(r.rec) = Len(r.dir)
                /\ \A i \in DOMAIN r.rels : r.rels[i].off + r.rels[i].size <= Len(r.rec)
                /\ ApplyW(r.rec, r.rels, r.sym, 1) = r.dir
+               (* each section relocation is against the section its offset points into *)
+               /\ TargetsOK(r.sec, r.ver, r.rels, r.lens)
 (* Converse ("every address and cross-section offset passes through the    *)
 (* relocating writer"), with every address written symbolically: in the    *)
 (* sections listed in StrictSecs each relocatable-primitive read must be a     *)
